@@ -21,6 +21,13 @@ type SprayConfig struct {
 	Multiplicity uint64
 }
 
+// sprayMetaDataKey is the key for a bundle's metadata. A bundle which is retried from the store is described by its
+// "scrubbed" ID, compare Core.checkPendingBundles. Thus, this ID is used for every bundle; otherwise the metadata of
+// a fragment would never be found again after its first transmission.
+func sprayMetaDataKey(bp BundleDescriptor) bpv7.BundleID {
+	return bp.Id.Scrub()
+}
+
 // SprayAndWait implements the vanilla Spray and Wait routing protocol
 // In this case, the bundle originator distributes all Multiplicity copies themselves
 type SprayAndWait struct {
@@ -92,7 +99,7 @@ func (sw *SprayAndWait) NotifyNewBundle(bp BundleDescriptor) {
 		}
 
 		sw.dataMutex.Lock()
-		sw.bundleData[bp.Id] = metadata
+		sw.bundleData[sprayMetaDataKey(bp)] = metadata
 		sw.dataMutex.Unlock()
 
 		log.WithFields(log.Fields{
@@ -110,7 +117,7 @@ func (sw *SprayAndWait) NotifyNewBundle(bp BundleDescriptor) {
 		}
 
 		sw.dataMutex.Lock()
-		sw.bundleData[bp.Id] = metadata
+		sw.bundleData[sprayMetaDataKey(bp)] = metadata
 		sw.dataMutex.Unlock()
 
 		log.WithFields(log.Fields{
@@ -129,7 +136,7 @@ func (_ *SprayAndWait) DispatchingAllowed(_ BundleDescriptor) bool {
 // Forwarders will only every deliver the bundle to its final destination
 func (sw *SprayAndWait) SenderForBundle(bp BundleDescriptor) (css []cla.ConvergenceSender, del bool) {
 	sw.dataMutex.RLock()
-	metadata, ok := sw.bundleData[bp.Id]
+	metadata, ok := sw.bundleData[sprayMetaDataKey(bp)]
 	sw.dataMutex.RUnlock()
 	if !ok {
 		log.WithFields(log.Fields{
@@ -167,7 +174,7 @@ func (sw *SprayAndWait) SenderForBundle(bp BundleDescriptor) (css []cla.Converge
 	}
 
 	sw.dataMutex.Lock()
-	sw.bundleData[bp.Id] = metadata
+	sw.bundleData[sprayMetaDataKey(bp)] = metadata
 	sw.dataMutex.Unlock()
 
 	log.WithFields(log.Fields{
@@ -192,7 +199,7 @@ func (sw *SprayAndWait) ReportFailure(bp BundleDescriptor, sender cla.Convergenc
 	sw.dataMutex.Lock()
 	defer sw.dataMutex.Unlock()
 
-	metadata, ok := sw.bundleData[bp.Id]
+	metadata, ok := sw.bundleData[sprayMetaDataKey(bp)]
 	if !ok {
 		log.WithFields(log.Fields{
 			"bundle": bp.ID(),
@@ -211,7 +218,7 @@ func (sw *SprayAndWait) ReportFailure(bp BundleDescriptor, sender cla.Convergenc
 		}
 	}
 
-	sw.bundleData[bp.Id] = metadata
+	sw.bundleData[sprayMetaDataKey(bp)] = metadata
 }
 
 func (_ *SprayAndWait) ReportPeerAppeared(_ cla.Convergence) {}
@@ -285,7 +292,7 @@ func (bs *BinarySpray) NotifyNewBundle(bp BundleDescriptor) {
 		}
 
 		bs.dataMutex.Lock()
-		bs.bundleData[bp.Id] = metadata
+		bs.bundleData[sprayMetaDataKey(bp)] = metadata
 		bs.dataMutex.Unlock()
 
 		log.WithFields(log.Fields{
@@ -299,7 +306,7 @@ func (bs *BinarySpray) NotifyNewBundle(bp BundleDescriptor) {
 		}
 
 		bs.dataMutex.Lock()
-		bs.bundleData[bp.Id] = metadata
+		bs.bundleData[sprayMetaDataKey(bp)] = metadata
 		bs.dataMutex.Unlock()
 
 		log.WithFields(log.Fields{
@@ -318,7 +325,7 @@ func (bs *BinarySpray) NotifyNewBundle(bp BundleDescriptor) {
 		}
 
 		bs.dataMutex.Lock()
-		bs.bundleData[bp.Id] = metadata
+		bs.bundleData[sprayMetaDataKey(bp)] = metadata
 		bs.dataMutex.Unlock()
 
 		log.WithFields(log.Fields{
@@ -337,7 +344,7 @@ func (_ *BinarySpray) DispatchingAllowed(_ BundleDescriptor) bool {
 // and keep roof(copies/2) for itself
 func (bs *BinarySpray) SenderForBundle(bp BundleDescriptor) (css []cla.ConvergenceSender, del bool) {
 	bs.dataMutex.RLock()
-	metadata, ok := bs.bundleData[bp.Id]
+	metadata, ok := bs.bundleData[sprayMetaDataKey(bp)]
 	bs.dataMutex.RUnlock()
 	if !ok {
 		log.WithFields(log.Fields{
@@ -387,7 +394,7 @@ func (bs *BinarySpray) SenderForBundle(bp BundleDescriptor) (css []cla.Convergen
 	}
 
 	bs.dataMutex.Lock()
-	bs.bundleData[bp.Id] = metadata
+	bs.bundleData[sprayMetaDataKey(bp)] = metadata
 	bs.dataMutex.Unlock()
 
 	log.WithFields(log.Fields{
@@ -420,7 +427,7 @@ func (bs *BinarySpray) ReportFailure(bp BundleDescriptor, sender cla.Convergence
 	bs.dataMutex.Lock()
 	defer bs.dataMutex.Unlock()
 
-	metadata, ok := bs.bundleData[bp.Id]
+	metadata, ok := bs.bundleData[sprayMetaDataKey(bp)]
 	if !ok {
 		log.WithFields(log.Fields{
 			"bundle":  bp.ID(),
@@ -439,7 +446,7 @@ func (bs *BinarySpray) ReportFailure(bp BundleDescriptor, sender cla.Convergence
 		}
 	}
 
-	bs.bundleData[bp.Id] = metadata
+	bs.bundleData[sprayMetaDataKey(bp)] = metadata
 }
 
 func (_ *BinarySpray) ReportPeerAppeared(_ cla.Convergence) {}
